@@ -31,6 +31,7 @@ META = {
 }
 META["technique"] += '; loader twins (analysis loads the same sources on both paths); filtered comprehensions in expressions()/children()'
 META["technique"] += "; no return before the node's own expressions in the analysis visitor; returned lists as child contributions"
+META["technique"] += '; children / children_async twins with keyword forwarding; partial scope built from partial.in_scope alone'
 
 EXPR_USE = {"evaluate", "evaluate_async", "map", "evaluate_args", "evaluate_args_async"}
 NODE_USE = {"evaluate", "evaluate_async", "render", "render_async", "map"}
@@ -483,6 +484,34 @@ def run(prog: Program, res: Result) -> None:  # noqa: PLR0912, PLR0915
     from checks.shared import check_loader_twins
 
     check_loader_twins(prog, res, "C11.R11")
+    res.rule("C11.R12", "analyze_async() walks the children analyze() walks: every children_async equals its children() modulo await, and a children_async that delegates to children() forwards every keyword (include_partials) - a dropped keyword makes the async analysis load parents and partials the caller excluded")
+    from checks.shared import check_children_twins
+
+    check_children_twins(prog, res, "C11.R12")
+    res.rule("C11.R13", "what a partial may treat as bound is what its tag declares in partial_scope().in_scope and nothing else: the analysis visitor builds the partial's scope from `set(partial.in_scope)` alone, and no node that loads a partial also declares a block_scope() (names offered there would count as bound inside the partial whatever the run time does - `forloop` for `render … for` over a value that is not a sequence)")
+    n13 = 0
+    sa13 = prog.mod("liquid2/static_analysis.py")
+    for v13 in [f for q, f in sa13.functions.items() if q.endswith("._visit")]:
+        n13 += 1
+        ctor_args = [norm(c.args[0], 80) for c in ast.walk(v13.node) if isinstance(c, ast.Call) and (dotted(c.func) or "").endswith("_StaticScope") and c.args] + [norm(c.args[0], 80) for c in ast.walk(v13.node) if isinstance(c, ast.Call) and isinstance(c.func, ast.Attribute) and c.func.attr == "push" and c.args and "partial" in norm(c.args[0], 80)]
+        partial_args = [a for a in ctor_args if "partial" in a]
+        site = f"{sa13.relpath}:{v13.node.lineno} {v13.qualname}"
+        what = f"{v13.qualname}: the partial's scope is built from partial.in_scope alone"
+        bad13 = [a for a in partial_args if a != "set(partial.in_scope)"]
+        if bad13 or not partial_args:
+            res.fail("C11.R13", file=sa13.relpath, line=v13.node.lineno, qualname=v13.qualname, construct=f"{v13.qualname}: partial scope built from `{(bad13 or ['<nothing>'])[0][:50]}`", message=f"{v13.qualname} builds the scope of a loaded partial from `{(bad13 or ['<nothing>'])[0][:70]}` instead of `set(partial.in_scope)`: names added there count as bound inside the partial, so a lookup the render makes in the globals is not reported as a global", what=what)
+        else:
+            res.ok("C11.R13", site, what, f"{len(partial_args)} construction(s) from set(partial.in_scope)")
+    for ci13 in prog.subclasses("liquid2.ast.Node"):
+        if "partial_scope" in ci13.methods and any(isinstance(r, ast.Return) and isinstance(r.value, ast.Call) for r in ast.walk(ci13.methods["partial_scope"].node)):
+            n13 += 1
+            site = f"{ci13.file}:{ci13.node.lineno} {ci13.name}"
+            what = f"{ci13.name}: loads a partial and declares no block_scope()"
+            if "block_scope" in ci13.methods:
+                res.fail("C11.R13", file=ci13.file, line=ci13.methods["block_scope"].node.lineno, qualname=f"{ci13.name}.block_scope", construct=f"{ci13.name} declares block_scope() although it loads a partial", message=f"{ci13.name} loads a partial and also declares block_scope(): the visitor reads block_scope() only for nodes that render their own children; for a partial the names must be in partial_scope().in_scope, under the same conditions as the render binds them", what=what)
+            else:
+                res.ok("C11.R13", site, what, "partial_scope() only")
+    res.floor("C11.R13", "visitors and partial-loading nodes", n13, 4)
 
     # ------------------------------------------------------------------ R8 attributes of an expression evaluated by another class
     res.rule("C11.R8", "an attribute of an Expression object that some other class evaluates (`<x>.<attr>.evaluate[_async](…)` with <x> declared as that Expression class) is contributed by that class's children(): what a tag evaluates through a helper expression is visible to the analyser")
